@@ -425,6 +425,9 @@ def attr_writers(repo, attr, include_mutating_calls=True, modules=None):
             continue
         for n in ast.walk(m.tree):
             if isinstance(n, ast.Attribute) and n.attr == attr:
+                ef = enclosing_func(n)
+                if ef is not None and getattr(ef, "_folded", False):
+                    continue        # helper folded into its callers by the normal form (N3): judged there
                 if isinstance(n.ctx, (ast.Store, ast.Del)):
                     out.append((n, "assign"))
                     continue
